@@ -121,13 +121,13 @@ theorem tg_strip : ∀ (h : Hint) (v : V), tg (strip h) v = tg h v
   | .annotated h, v => by rw [strip, tg_strip h v]; simp [tg]
   | .cls _, _ | .noneVal, _ | .unionNew _, _ | .unionOld _, _ | .literal _, _ | .listOf _, _
   | .setOf _, _ | .dictOf _ _, _ | .tupleFix _, _ | .tupleVar _, _ | .typeOf _, _
-  | .callableOf _ _, _ => by simp [strip]
+  | .callableOf _ _, _ | .any, _ | .bare _, _ | .seqOf _, _ | .mapOf _ _, _ => by simp [strip]
 
 theorem tgType_strip : ∀ (h : Hint) (k : Cls), tgType (strip h) k = tgType h k
   | .annotated h, k => by rw [strip, tgType_strip h k]; simp [tgType]
   | .cls _, _ | .noneVal, _ | .unionNew _, _ | .unionOld _, _ | .literal _, _ | .listOf _, _
   | .setOf _, _ | .dictOf _ _, _ | .tupleFix _, _ | .tupleVar _, _ | .typeOf _, _
-  | .callableOf _ _, _ => by simp [strip]
+  | .callableOf _ _, _ | .any, _ | .bare _, _ | .seqOf _, _ | .mapOf _ _, _ => by simp [strip]
 
 /-- admission of what the comparison recursion is called with -/
 def tgA : Arg → V → Bool
@@ -180,7 +180,8 @@ theorem every_strip (p : Hint → Bool) : ∀ h : Hint, every p h = true → eve
     rw [strip]; simp only [every, Bool.and_eq_true] at hh; exact every_strip p h hh.2
   | .cls _, hh | .noneVal, hh | .unionNew _, hh | .unionOld _, hh | .literal _, hh
   | .listOf _, hh | .setOf _, hh | .dictOf _ _, hh | .tupleFix _, hh | .tupleVar _, hh
-  | .typeOf _, hh | .callableOf _ _, hh => by simpa [strip] using hh
+  | .typeOf _, hh | .callableOf _ _, hh | .any, hh | .bare _, hh | .seqOf _, hh | .mapOf _ _, hh => by
+    simpa [strip] using hh
 
 theorem Arg.every_strip (p : Hint → Bool) (x : Arg) (h : x.every p = true) :
     x.strip.every p = true := by
@@ -350,11 +351,33 @@ theorem soundAt_h (a b : Hint) (h1 : ∀ v, tg a v = true → tg b v = true)
   exact ⟨h1, h2, fun e => (by cases e), fun _ e => (by cases e)⟩
 
 
+/-- whatever a generic admits, its origin class admits (typeguard) -/
+theorem tg_origin_cls (h : Hint) (g : Org) (c : Cls) (v : V) (hg : origin h = some g)
+    (hc : g.cls = some c) (hv : tg h v = true) : tgCls c v = true := by
+  cases h with
+  | bare g' =>
+    simp only [origin, Option.some.injEq] at hg; subst hg
+    cases g' <;> simp only [Alias.org, Org.cls, Option.some.injEq] at hc <;> subst hc <;>
+      simpa [tg, Alias.cls] using hv
+  | callableOf ps r =>
+    simp only [origin, Option.some.injEq] at hg; subst hg
+    simp only [Org.cls, Option.some.injEq] at hc; subst hc
+    simp only [tg, Bool.and_eq_true] at hv
+    simp only [tgCls, isinstCls, Bool.or_eq_true]
+    exact Or.inl (Or.inl hv.1)
+  | literal ls => simp only [origin, Option.some.injEq] at hg; subst hg; simp [Org.cls] at hc
+  | listOf _ | setOf _ | dictOf _ _ | tupleFix _ | tupleVar _ | typeOf _ | seqOf _ | mapOf _ _ =>
+    simp only [origin, Option.some.injEq] at hg; subst hg
+    simp only [Org.cls, Option.some.injEq] at hc; subst hc
+    cases v <;> simp_all [tg, tgCls, isinstCls, V.type, Cls.sub, seqFirst]
+  | cls _ | noneVal | unionNew _ | unionOld _ | annotated _ | any => simp [origin] at hg
+
 structure SoundHyp (cfg : Cfg) (pH pO : Hint → Bool) : Prop where
   lit : ∀ ls ms', pH (.literal ls) = true → pO (.literal ms') = true →
       (ls.all fun l => ms'.any fun m => litLeq cfg l m) = true →
       ∀ v, litAdmits ls v = true → litAdmits ms' v = true
-  empty : cfg.emptyOtherStrict = false → pO (.tupleFix []) = false
+  empty : cfg.argsFix = false → pO (.tupleFix []) = false
+  unordered : cfg.argsFix = false → ∀ k v, pO (.mapOf k v) = false
 
 theorem body_sound_union (cfg : Cfg) (pH pO : Hint → Bool) (rec : Arg → Arg → Option Bool)
     (hrec : ∀ x y, x.every pH = true → y.every pO = true → rec x y = some true → SoundAt x y)
@@ -481,6 +504,14 @@ theorem body_sound (cfg : Cfg) (pH pO : Hint → Bool) (H : SoundHyp cfg pH pO)
           cases b with
           | noneVal => exact soundAt_h _ _ (fun _ hv => hv) (fun _ hk => hk)
           | _ => simp [argOrigin, origin, leafLe] at hm
+        | any =>
+          cases b with
+          | any => exact soundAt_h _ _ (fun _ hv => hv) (fun _ hk => hk)
+          | cls cb =>
+            cases cb <;> simp [argOrigin, origin, leafLe] at hm
+            exact soundAt_h _ _ (fun v _ => by simp [tg, tgCls, isinstCls, Cls.sub])
+              (fun k _ => by simp [tgType, Cls.sub])
+          | _ => simp [argOrigin, origin, leafLe] at hm
         | literal ls =>
           cases b with
           | literal ms' =>
@@ -492,18 +523,58 @@ theorem body_sound (cfg : Cfg) (pH pO : Hint → Bool) (H : SoundHyp cfg pH pO)
             split at hm
             · simp at hm
             · exact H.lit ls ms' h1 h2 (by simpa using hm) v hv
+          | bare g => cases g <;> simp [argOrigin, origin, Alias.org] at hm
           | _ => simp [argOrigin, origin, Org.cls] at hm
+        | bare g =>
+          cases b with
+          | cls cb =>
+            refine soundAt_h _ _ (fun v hv => ?_) (fun k hk => by simp [tgType] at hk)
+            cases g <;> simp [argOrigin, origin, Alias.org, Org.cls] at hm <;> subst hm <;>
+              simpa [tg, Alias.cls] using hv
+          | bare g' =>
+            by_cases hg : g = g'
+            · subst hg; exact soundAt_h _ _ (fun _ hv => hv) (fun _ hk => hk)
+            · exfalso; cases g <;> cases g' <;> simp_all [argOrigin, origin, Alias.org]
+          | tupleFix bs =>
+            exfalso
+            have hroot := every_root pO _ ho
+            cases bs with
+            | nil =>
+              cases hfix : cfg.argsFix with
+              | false => have := H.empty hfix; rw [this] at hroot; cases hroot
+              | true =>
+                cases g <;> simp [argOrigin, origin, Alias.org, argArgs, pyArgs, subscripted, hfix] at hm
+            | cons _ _ => cases g <;> simp [argOrigin, origin, Alias.org, argArgs, pyArgs] at hm
+          | literal _ => cases g <;> simp [argOrigin, origin, Alias.org] at hm
+          | listOf _ => cases g <;> simp [argOrigin, origin, Alias.org, argArgs, pyArgs] at hm
+          | setOf _ => cases g <;> simp [argOrigin, origin, Alias.org, argArgs, pyArgs] at hm
+          | dictOf _ _ => cases g <;> simp [argOrigin, origin, Alias.org, argArgs, pyArgs] at hm
+          | tupleVar _ => cases g <;> simp [argOrigin, origin, Alias.org, argArgs, pyArgs] at hm
+          | typeOf _ => cases g <;> simp [argOrigin, origin, Alias.org, argArgs, pyArgs] at hm
+          | callableOf ps _ =>
+            cases g <;> cases ps <;> simp [argOrigin, origin, Alias.org, argArgs, pyArgs] at hm
+          | seqOf _ => cases g <;> simp [argOrigin, origin, Alias.org, argArgs, pyArgs] at hm
+          | mapOf _ _ => cases g <;> simp [argOrigin, origin, Alias.org, argArgs, pyArgs] at hm
+          | _ => simp [argOrigin, origin] at hm
         | listOf a =>
           cases b with
           | cls cb =>
             simp [argOrigin, origin, Org.cls] at hm
             subst hm
+            exact soundAt_h _ _ (fun v hv => tg_origin_cls _ _ _ v rfl rfl hv) (fun k hk => by simp [tgType] at hk)
+          | bare g =>
             refine soundAt_h _ _ (fun v hv => ?_) (fun k hk => by simp [tgType] at hk)
-            cases v <;> simp_all [tg, tgCls, isinstCls, V.type, Cls.sub]
+            cases g <;> cases hfix : cfg.argsFix <;>
+              simp [argOrigin, origin, Alias.org, argArgs, pyArgs, Org.ordered, subscripted, hfix, allL, anyL] at hm
+            simpa [tg, Org.cls, Alias.cls] using tg_origin_cls _ _ _ v rfl rfl hv
           | listOf b =>
-            simp [argOrigin, origin, argArgs, pyArgs, Org.ordered] at hm
+            have hr : rec (.h a) (.h b) = some true := by
+              cases hfix : cfg.argsFix <;>
+                simp [argOrigin, origin, argArgs, pyArgs, Org.ordered, hfix] at hm
+              · exact single_sub rec _ _ hm
+              · exact (allZip_cons _ _ _ _ _ hm).1
             simp only [Arg.every, every, Bool.and_eq_true] at hh ho
-            have hs := hrec (.h a) (.h b) hh.2 ho.2 (single_sub rec _ _ hm)
+            have hs := hrec (.h a) (.h b) hh.2 ho.2 hr
             refine soundAt_h _ _ (fun v hv => ?_) (fun k hk => by simp [tgType] at hk)
             cases v <;> simp only [tg] at hv ⊢ <;> first | exact first_sound _ _ hs _ hv | cases hv
           | _ => simp [argOrigin, origin] at hm
@@ -512,12 +583,20 @@ theorem body_sound (cfg : Cfg) (pH pO : Hint → Bool) (H : SoundHyp cfg pH pO)
           | cls cb =>
             simp [argOrigin, origin, Org.cls] at hm
             subst hm
+            exact soundAt_h _ _ (fun v hv => tg_origin_cls _ _ _ v rfl rfl hv) (fun k hk => by simp [tgType] at hk)
+          | bare g =>
             refine soundAt_h _ _ (fun v hv => ?_) (fun k hk => by simp [tgType] at hk)
-            cases v <;> simp_all [tg, tgCls, isinstCls, V.type, Cls.sub]
+            cases g <;> cases hfix : cfg.argsFix <;>
+              simp [argOrigin, origin, Alias.org, argArgs, pyArgs, Org.ordered, subscripted, hfix, allL, anyL] at hm
+            simpa [tg, Org.cls, Alias.cls] using tg_origin_cls _ _ _ v rfl rfl hv
           | setOf b =>
-            simp [argOrigin, origin, argArgs, pyArgs, Org.ordered] at hm
+            have hr : rec (.h a) (.h b) = some true := by
+              cases hfix : cfg.argsFix <;>
+                simp [argOrigin, origin, argArgs, pyArgs, Org.ordered, hfix] at hm
+              · exact single_sub rec _ _ hm
+              · exact (allZip_cons _ _ _ _ _ hm).1
             simp only [Arg.every, every, Bool.and_eq_true] at hh ho
-            have hs := hrec (.h a) (.h b) hh.2 ho.2 (single_sub rec _ _ hm)
+            have hs := hrec (.h a) (.h b) hh.2 ho.2 hr
             refine soundAt_h _ _ (fun v hv => ?_) (fun k hk => by simp [tgType] at hk)
             cases v <;> simp only [tg] at hv ⊢ <;> first | exact first_sound _ _ hs _ hv | cases hv
           | _ => simp [argOrigin, origin] at hm
@@ -526,26 +605,94 @@ theorem body_sound (cfg : Cfg) (pH pO : Hint → Bool) (H : SoundHyp cfg pH pO)
           | cls cb =>
             simp [argOrigin, origin, Org.cls] at hm
             subst hm
+            exact soundAt_h _ _ (fun v hv => tg_origin_cls _ _ _ v rfl rfl hv) (fun k hk => by simp [tgType] at hk)
+          | bare g =>
             refine soundAt_h _ _ (fun v hv => ?_) (fun k hk => by simp [tgType] at hk)
-            cases v <;> simp_all [tg, tgCls, isinstCls, V.type, Cls.sub]
+            cases g <;> cases hfix : cfg.argsFix <;>
+              simp [argOrigin, origin, Alias.org, argArgs, pyArgs, Org.ordered, subscripted, hfix, allL, anyL] at hm
+            simpa [tg, Org.cls, Alias.cls] using tg_origin_cls _ _ _ v rfl rfl hv
           | typeOf b =>
-            simp [argOrigin, origin, argArgs, pyArgs, Org.ordered] at hm
+            have hr : rec (.h a) (.h b) = some true := by
+              cases hfix : cfg.argsFix <;>
+                simp [argOrigin, origin, argArgs, pyArgs, Org.ordered, hfix] at hm
+              · exact single_sub rec _ _ hm
+              · exact (allZip_cons _ _ _ _ _ hm).1
             simp only [Arg.every, every, Bool.and_eq_true] at hh ho
-            have hs := hrec (.h a) (.h b) hh.2 ho.2 (single_sub rec _ _ hm)
+            have hs := hrec (.h a) (.h b) hh.2 ho.2 hr
             refine soundAt_h _ _ (fun v hv => ?_) (fun k hk => by simp [tgType] at hk)
             cases v <;> simp only [tg] at hv ⊢ <;> first | exact hs.2.1 _ hv | cases hv
+          | _ => simp [argOrigin, origin] at hm
+        | seqOf a =>
+          cases b with
+          | cls cb =>
+            simp [argOrigin, origin, Org.cls] at hm
+            subst hm
+            exact soundAt_h _ _ (fun v hv => tg_origin_cls _ _ _ v rfl rfl hv) (fun k hk => by simp [tgType] at hk)
+          | bare g =>
+            refine soundAt_h _ _ (fun v hv => ?_) (fun k hk => by simp [tgType] at hk)
+            cases g <;> cases hfix : cfg.argsFix <;>
+              simp [argOrigin, origin, Alias.org, argArgs, pyArgs, Org.ordered, subscripted, hfix, allL, anyL] at hm
+            simpa [tg, Org.cls, Alias.cls] using tg_origin_cls _ _ _ v rfl rfl hv
+          | seqOf b =>
+            have hr : rec (.h a) (.h b) = some true := by
+              cases hfix : cfg.argsFix <;>
+                simp [argOrigin, origin, argArgs, pyArgs, Org.ordered, hfix] at hm
+              · exact single_sub rec _ _ hm
+              · exact (allZip_cons _ _ _ _ _ hm).1
+            simp only [Arg.every, every, Bool.and_eq_true] at hh ho
+            have hs := hrec (.h a) (.h b) hh.2 ho.2 hr
+            refine soundAt_h _ _ (fun v hv => ?_) (fun k hk => by simp [tgType] at hk)
+            simp only [tg] at hv ⊢
+            cases hsf : seqFirst v with
+            | none => simp [hsf] at hv
+            | some fx =>
+              cases fx with
+              | none => simp
+              | some x => simp only [hsf] at hv ⊢; exact hs.1 x hv
+          | _ => simp [argOrigin, origin] at hm
+        | mapOf ka va =>
+          cases b with
+          | cls cb =>
+            simp [argOrigin, origin, Org.cls] at hm
+            subst hm
+            exact soundAt_h _ _ (fun v hv => tg_origin_cls _ _ _ v rfl rfl hv) (fun k hk => by simp [tgType] at hk)
+          | bare g =>
+            refine soundAt_h _ _ (fun v hv => ?_) (fun k hk => by simp [tgType] at hk)
+            cases g <;> cases hfix : cfg.argsFix <;>
+              simp [argOrigin, origin, Alias.org, argArgs, pyArgs, Org.ordered, subscripted, hfix, allL, anyL] at hm
+            simpa [tg, Org.cls, Alias.cls] using tg_origin_cls _ _ _ v rfl rfl hv
+          | mapOf kb vb =>
+            have hroot := every_root pO _ ho
+            cases hfix : cfg.argsFix with
+            | false => have := H.unordered hfix kb vb; rw [this] at hroot; cases hroot
+            | true =>
+              simp [argOrigin, origin, argArgs, pyArgs, Org.ordered, hfix] at hm
+              simp only [Arg.every, every, Bool.and_eq_true] at hh ho
+              obtain ⟨h1, h2⟩ := allZip_cons _ _ _ _ _ hm
+              obtain ⟨h2, _⟩ := allZip_cons _ _ _ _ _ h2
+              have hs1 := hrec (.h ka) (.h kb) hh.1.2 ho.1.2 h1
+              have hs2 := hrec (.h va) (.h vb) hh.2 ho.2 h2
+              refine soundAt_h _ _ (fun v hv => ?_) (fun k hk => by simp [tgType] at hk)
+              cases v <;> simp only [tg, Bool.and_eq_true] at hv ⊢ <;>
+                first | exact ⟨first_sound _ _ hs1 _ hv.1, first_sound _ _ hs2 _ hv.2⟩ | cases hv
           | _ => simp [argOrigin, origin] at hm
         | dictOf ka va =>
           cases b with
           | cls cb =>
             simp [argOrigin, origin, Org.cls] at hm
             subst hm
+            exact soundAt_h _ _ (fun v hv => tg_origin_cls _ _ _ v rfl rfl hv) (fun k hk => by simp [tgType] at hk)
+          | bare g =>
             refine soundAt_h _ _ (fun v hv => ?_) (fun k hk => by simp [tgType] at hk)
-            cases v <;> simp_all [tg, tgCls, isinstCls, V.type, Cls.sub]
+            cases g <;> cases hfix : cfg.argsFix <;>
+              simp [argOrigin, origin, Alias.org, argArgs, pyArgs, Org.ordered, subscripted, hfix, allL, anyL] at hm
+            all_goals simpa [tg, Org.cls, Alias.cls] using tg_origin_cls _ _ _ v rfl rfl hv
           | dictOf kb vb =>
-            simp [argOrigin, origin, argArgs, pyArgs, Org.ordered] at hm
+            have hz : allZip rec [.h ka, .h va] [.h kb, .h vb] = some true := by
+              cases hfix : cfg.argsFix <;>
+                simpa [argOrigin, origin, argArgs, pyArgs, Org.ordered, hfix] using hm
             simp only [Arg.every, every, Bool.and_eq_true] at hh ho
-            obtain ⟨h1, h2⟩ := allZip_cons _ _ _ _ _ hm
+            obtain ⟨h1, h2⟩ := allZip_cons _ _ _ _ _ hz
             obtain ⟨h2, _⟩ := allZip_cons _ _ _ _ _ h2
             have hs1 := hrec (.h ka) (.h kb) hh.1.2 ho.1.2 h1
             have hs2 := hrec (.h va) (.h vb) hh.2 ho.2 h2
@@ -558,41 +705,50 @@ theorem body_sound (cfg : Cfg) (pH pO : Hint → Bool) (H : SoundHyp cfg pH pO)
           | cls cb =>
             simp [argOrigin, origin, Org.cls] at hm
             subst hm
+            exact soundAt_h _ _ (fun v hv => tg_origin_cls _ _ _ v rfl rfl hv) (fun k hk => by simp [tgType] at hk)
+          | bare g =>
             refine soundAt_h _ _ (fun v hv => ?_) (fun k hk => by simp [tgType] at hk)
-            cases v <;> simp_all [tg, tgCls, isinstCls, V.type, Cls.sub]
+            cases g <;> cases as <;> cases hfix : cfg.argsFix <;>
+              simp [argOrigin, origin, Alias.org, argArgs, pyArgs, Org.ordered, subscripted, hfix, allL, anyL] at hm
+            all_goals simpa [tg, Org.cls, Alias.cls] using tg_origin_cls _ _ _ v rfl rfl hv
           | tupleFix bs =>
-            simp only [argOrigin, origin, argArgs, pyArgs, Org.ordered] at hm
             simp only [Arg.every, every, Bool.and_eq_true] at hh
             have hroot := every_root pO _ ho
             simp only [Arg.every, every, Bool.and_eq_true] at ho
             refine soundAt_h _ _ (fun v hv => ?_) (fun k hk => by simp [tgType] at hk)
             cases bs with
             | nil =>
-              cases hstrict : cfg.emptyOtherStrict with
-              | false => rw [H.empty hstrict] at hroot; cases hroot
+              cases hfix : cfg.argsFix with
+              | false => rw [H.empty hfix] at hroot; cases hroot
               | true =>
                 cases as with
                 | nil => exact hv
-                | cons _ _ => simp [hstrict] at hm
+                | cons _ _ =>
+                  simp [argOrigin, origin, argArgs, pyArgs, Org.ordered, subscripted, hfix] at hm
             | cons b0 bs' =>
-              simp at hm
-              split at hm
-              · simp at hm
-              · split at hm
-                · rename_i hl
-                  cases v <;> simp only [tg] at hv ⊢ <;> first | cases hv | skip
-                  exact zip_sound pH pO rec hrec as (b0 :: bs') hm (by simpa using hl) hh.2 ho.2 _ hv
-                · simp at hm
+              have hz : (b0 :: bs').length = as.length ∧
+                  allZip rec (as.map .h) ((b0 :: bs').map .h) = some true := by
+                cases hfix : cfg.argsFix <;>
+                  simp [argOrigin, origin, argArgs, pyArgs, Org.ordered, hfix] at hm <;>
+                  (split at hm
+                   · simp at hm
+                   · split at hm
+                     · rename_i hl; exact ⟨by simpa using hl, hm⟩
+                     · simp at hm)
+              cases v <;> simp only [tg] at hv ⊢ <;> first | cases hv | skip
+              exact zip_sound pH pO rec hrec as (b0 :: bs') hz.2 hz.1 hh.2 ho.2 _ hv
           | tupleVar b =>
-            simp [argOrigin, origin, argArgs, pyArgs, Org.ordered] at hm
             simp only [Arg.every, every, Bool.and_eq_true] at hh ho
             refine soundAt_h _ _ (fun v hv => ?_) (fun k hk => by simp [tgType] at hk)
-            split at hm
-            · simp at hm
-            split at hm
-            case isFalse => simp at hm
-            rename_i hl
-            match as, hl, hm, hh with
+            have hz : as.length = 2 ∧ allZip rec (as.map .h) [.h b, .ell] = some true := by
+              cases hfix : cfg.argsFix <;>
+                simp [argOrigin, origin, argArgs, pyArgs, Org.ordered, hfix] at hm <;>
+                (split at hm
+                 · simp at hm
+                 · split at hm
+                   · rename_i hl; exact ⟨by simpa using hl.symm, hm⟩
+                   · simp at hm)
+            match as, hz.1, hz.2, hh with
             | [a0, a1], _, hz, hh =>
               simp only [List.map_cons, List.map_nil] at hz
               obtain ⟨_, h2⟩ := allZip_cons _ _ _ _ _ hz
@@ -615,23 +771,29 @@ theorem body_sound (cfg : Cfg) (pH pO : Hint → Bool) (H : SoundHyp cfg pH pO)
           | cls cb =>
             simp [argOrigin, origin, Org.cls] at hm
             subst hm
+            exact soundAt_h _ _ (fun v hv => tg_origin_cls _ _ _ v rfl rfl hv) (fun k hk => by simp [tgType] at hk)
+          | bare g =>
             refine soundAt_h _ _ (fun v hv => ?_) (fun k hk => by simp [tgType] at hk)
-            cases v <;> simp_all [tg, tgCls, isinstCls, V.type, Cls.sub]
+            cases g <;> cases hfix : cfg.argsFix <;>
+              simp [argOrigin, origin, Alias.org, argArgs, pyArgs, Org.ordered, subscripted, hfix, allL, anyL] at hm
+            all_goals simpa [tg, Org.cls, Alias.cls] using tg_origin_cls _ _ _ v rfl rfl hv
           | tupleFix bs =>
-            simp only [argOrigin, origin, argArgs, pyArgs, Org.ordered] at hm
             have hroot := every_root pO _ ho
             exfalso
             cases bs with
             | nil =>
-              cases hstrict : cfg.emptyOtherStrict with
-              | false => rw [H.empty hstrict] at hroot; cases hroot
-              | true => simp [hstrict] at hm
+              cases hfix : cfg.argsFix with
+              | false => rw [H.empty hfix] at hroot; cases hroot
+              | true => simp [argOrigin, origin, argArgs, pyArgs, Org.ordered, subscripted, hfix] at hm
             | cons b0 bs' =>
-              simp at hm
-              split at hm
-              case isFalse => simp at hm
-              rename_i hl
-              match bs', hl, hm, ho with
+              have hz : (b0 :: bs').length = 2 ∧
+                  allZip rec [.h a, .ell] ((b0 :: bs').map .h) = some true := by
+                cases hfix : cfg.argsFix <;>
+                  simp [argOrigin, origin, argArgs, pyArgs, Org.ordered, hfix] at hm <;>
+                  (split at hm
+                   · rename_i hl; exact ⟨by simpa using hl, hm⟩
+                   · simp at hm)
+              match bs', hz.1, hz.2, ho with
               | [b1], _, hz, ho =>
                 simp only [List.map_cons, List.map_nil] at hz
                 obtain ⟨_, h2⟩ := allZip_cons _ _ _ _ _ hz
@@ -641,8 +803,10 @@ theorem body_sound (cfg : Cfg) (pH pO : Hint → Bool) (H : SoundHyp cfg pH pO)
                 have := hs.2.2.1 rfl
                 cases this
           | tupleVar b =>
-            simp [argOrigin, origin, argArgs, pyArgs, Org.ordered] at hm
-            obtain ⟨h1, _⟩ := allZip_cons _ _ _ _ _ hm
+            have hz : allZip rec [.h a, .ell] [.h b, .ell] = some true := by
+              cases hfix : cfg.argsFix <;>
+                simpa [argOrigin, origin, argArgs, pyArgs, Org.ordered, hfix] using hm
+            obtain ⟨h1, _⟩ := allZip_cons _ _ _ _ _ hz
             simp only [Arg.every, every, Bool.and_eq_true] at hh ho
             have hs := hrec (.h a) (.h b) hh.2 ho.2 h1
             refine soundAt_h _ _ (fun v hv => ?_) (fun k hk => by simp [tgType] at hk)
@@ -653,26 +817,29 @@ theorem body_sound (cfg : Cfg) (pH pO : Hint → Bool) (H : SoundHyp cfg pH pO)
           | cls cb =>
             simp [argOrigin, origin, Org.cls] at hm
             subst hm
+            exact soundAt_h _ _ (fun v hv => tg_origin_cls _ _ _ v rfl rfl hv) (fun k hk => by simp [tgType] at hk)
+          | bare g =>
             refine soundAt_h _ _ (fun v hv => ?_) (fun k hk => by simp [tgType] at hk)
-            simp only [tg, Bool.and_eq_true] at hv
-            simp only [tg, tgCls, isinstCls, Bool.or_eq_true]
-            exact Or.inl (Or.inl hv.1)
+            cases g <;> cases ps <;> cases hfix : cfg.argsFix <;>
+              simp [argOrigin, origin, Alias.org, argArgs, pyArgs, Org.ordered, subscripted, hfix, allL, anyL] at hm
+            all_goals simpa [tg, Org.cls, Alias.cls] using tg_origin_cls _ _ _ v rfl rfl hv
           | callableOf qs r' =>
             refine soundAt_h _ _ (fun v hv => ?_) (fun k hk => by simp [tgType] at hk)
-            cases ps <;> cases qs <;>
-              simp [argOrigin, origin, argArgs, pyArgs, Org.ordered] at hm
+            cases ps <;> cases qs <;> cases hfix : cfg.argsFix <;>
+              simp [argOrigin, origin, argArgs, pyArgs, Org.ordered, hfix] at hm
             all_goals obtain ⟨h1, _⟩ := allZip_cons _ _ _ _ _ hm
-            · simp only [tg] at hv ⊢; simpa using hv
-            · have hs := hrec .ell (.prm _) rfl rfl h1
-              have := hs.2.2.1 rfl
-              cases this
-            · have hs := hrec (.prm _) .ell rfl rfl h1
-              have := hs.2.2.2 _ rfl
-              cases this
-            · have hs := hrec (.prm _) (.prm _) rfl rfl h1
-              have := hs.2.2.2 _ rfl
-              cases this
-              exact hv
+            all_goals first
+              | (simp only [tg] at hv ⊢; simpa using hv)
+              | (have hs := hrec .ell (.prm _) rfl rfl h1
+                 have := hs.2.2.1 rfl
+                 cases this)
+              | (have hs := hrec (.prm _) .ell rfl rfl h1
+                 have := hs.2.2.2 _ rfl
+                 cases this)
+              | (have hs := hrec (.prm _) (.prm _) rfl rfl h1
+                 have := hs.2.2.2 _ rfl
+                 cases this
+                 exact hv)
           | _ => simp [argOrigin, origin] at hm
 
 /-! ## soundness for every fuel -/
@@ -756,6 +923,9 @@ theorem soundHyp (cfg : Cfg) (S : Lit → Bool)
   empty := by
     intro he
     simp [okOther, notEmptyTuple, he]
+  unordered := by
+    intro he k v
+    simp [okOther, notMapOf, he]
 
 theorem sound_tg (cfg : Cfg) (S : Lit → Bool)
     (hS : ∀ a b, S a = true → S b = true → litLeq cfg a b = true → a = b)
@@ -766,24 +936,29 @@ theorem sound_tg (cfg : Cfg) (S : Lit → Bool)
 /-! ## `isinstance` first -/
 
 mutual
-theorem isinst_true_tg : ∀ (h : Hint) (v : V), isinst h v = some true → tg h v = true
-  | .cls c, v, e => by
+theorem isinst_true_tg : ∀ (old : Bool) (h : Hint) (v : V), isinst old h v = some true → tg h v = true
+  | _, .cls c, v, e => by
     simp only [isinst, Option.some.injEq] at e
     simp [tg, tgCls, e]
-  | .unionNew hs, v, e => by simp only [isinst] at e; simp only [tg]; exact isinstAny_true_tg hs v e
-  | .unionOld hs, v, e => by simp only [isinst] at e; simp only [tg]; exact isinstAny_true_tg hs v e
-  | .noneVal, _, e | .literal _, _, e | .annotated _, _, e | .listOf _, _, e | .setOf _, _, e
-  | .dictOf _ _, _, e | .tupleFix _, _, e | .tupleVar _, _, e | .typeOf _, _, e
-  | .callableOf _ _, _, e => by simp [isinst] at e
-theorem isinstAny_true_tg : ∀ (hs : List Hint) (v : V), isinstAny hs v = some true → tgAny hs v = true
-  | [], _, e => by simp [isinstAny] at e
-  | h :: hs, v, e => by
+  | _, .bare g, v, e => by
+    simp only [isinst, Option.some.injEq] at e
+    simp [tg, tgCls, e]
+  | _, .any, _, _ => by simp [tg]
+  | _, .unionNew hs, v, e => by simp only [isinst] at e; simp only [tg]; exact isinstAny_true_tg _ hs v e
+  | _, .unionOld hs, v, e => by simp only [isinst] at e; simp only [tg]; exact isinstAny_true_tg _ hs v e
+  | _, .noneVal, _, e | _, .literal _, _, e | _, .annotated _, _, e | _, .listOf _, _, e | _, .setOf _, _, e
+  | _, .dictOf _ _, _, e | _, .tupleFix _, _, e | _, .tupleVar _, _, e | _, .typeOf _, _, e
+  | _, .callableOf _ _, _, e | _, .seqOf _, _, e | _, .mapOf _ _, _, e => by simp [isinst] at e
+theorem isinstAny_true_tg : ∀ (old : Bool) (hs : List Hint) (v : V),
+    isinstAny old hs v = some true → tgAny hs v = true
+  | _, [], _, e => by simp [isinstAny] at e
+  | old, h :: hs, v, e => by
     simp only [isinstAny] at e
     simp only [tgAny, Bool.or_eq_true]
     split at e
     · cases e
-    · rename_i e1; exact Or.inl (isinst_true_tg h v e1)
-    · exact Or.inr (isinstAny_true_tg hs v e)
+    · rename_i e1; exact Or.inl (isinst_true_tg old h v e1)
+    · exact Or.inr (isinstAny_true_tg old hs v e)
 end
 
 theorem admits_imp_tg (cfg : Cfg) (h : Hint) (v : V) (e : admits cfg h v = true) : tg h v = true := by
@@ -791,7 +966,7 @@ theorem admits_imp_tg (cfg : Cfg) (h : Hint) (v : V) (e : admits cfg h v = true)
   split at e
   · exact e
   · split at e
-    · subst e; rename_i e1; exact isinst_true_tg h v e1
+    · subst e; rename_i e1; exact isinst_true_tg false h v e1
     · exact e
 
 theorem tgCls_plain (c : Cls) (v : V) (hp : (plainValue v || (c != .float && c != .set)) = true) :
@@ -805,62 +980,63 @@ theorem tgCls_plain (c : Cls) (v : V) (hp : (plainValue v || (c != .float && c !
   · simp
 
 mutual
-theorem isinst_agrees : ∀ (h : Hint) (v : V) (b : Bool), (plainValue v || topPlain h) = true →
-    isinst h v = some b → tg h v = b
-  | .cls c, v, b, hp, e => by
+theorem isinst_agrees : ∀ (old : Bool) (h : Hint) (v : V) (b : Bool), agreesAt old v h = true →
+    isinst old h v = some b → tg h v = b
+  | _, .cls c, v, b, hp, e => by
     simp only [isinst, Option.some.injEq] at e
     simp only [tg]
-    rw [tgCls_plain c v (by simpa [topPlain] using hp)]; exact e
-  | .unionNew hs, v, b, hp, e => by
+    rw [tgCls_plain c v (by simpa [agreesAt] using hp)]; exact e
+  | _, .bare g, v, b, hp, e => by
+    simp only [isinst, Option.some.injEq] at e
+    simp only [tg]
+    rw [tgCls_plain g.cls v (by
+      simp only [agreesAt, Bool.or_eq_true] at hp ⊢
+      rcases hp with hp | hp
+      · exact Or.inl hp
+      · right; cases g <;> simp_all [Alias.cls])]; exact e
+  | old, .any, v, b, hp, e => by
+    cases old <;> simp [isinst, agreesAt] at e hp
+  | _, .unionNew hs, v, b, hp, e => by
     simp only [isinst] at e; simp only [tg]
-    exact isinstAny_agrees hs v b (by simpa [topPlain] using hp) e
-  | .unionOld hs, v, b, hp, e => by
+    exact isinstAny_agrees false hs v b (by simpa [agreesAt] using hp) e
+  | _, .unionOld hs, v, b, hp, e => by
     simp only [isinst] at e; simp only [tg]
-    exact isinstAny_agrees hs v b (by simpa [topPlain] using hp) e
-  | .noneVal, _, _, _, e | .literal _, _, _, _, e | .annotated _, _, _, _, e | .listOf _, _, _, _, e
-  | .setOf _, _, _, _, e | .dictOf _ _, _, _, _, e | .tupleFix _, _, _, _, e | .tupleVar _, _, _, _, e
-  | .typeOf _, _, _, _, e | .callableOf _ _, _, _, _, e => by simp [isinst] at e
-theorem isinstAny_agrees : ∀ (hs : List Hint) (v : V) (b : Bool),
-    (plainValue v || topPlainL hs) = true → isinstAny hs v = some b → tgAny hs v = b
-  | [], _, b, _, e => by simp only [isinstAny, Option.some.injEq] at e; simp [tgAny, ← e]
-  | h :: hs, v, b, hp, e => by
+    exact isinstAny_agrees true hs v b (by simpa [agreesAt] using hp) e
+  | _, .noneVal, _, _, _, e | _, .literal _, _, _, _, e | _, .annotated _, _, _, _, e | _, .listOf _, _, _, _, e
+  | _, .setOf _, _, _, _, e | _, .dictOf _ _, _, _, _, e | _, .tupleFix _, _, _, _, e | _, .tupleVar _, _, _, _, e
+  | _, .typeOf _, _, _, _, e | _, .callableOf _ _, _, _, _, e | _, .seqOf _, _, _, _, e
+  | _, .mapOf _ _, _, _, _, e => by simp [isinst] at e
+theorem isinstAny_agrees : ∀ (old : Bool) (hs : List Hint) (v : V) (b : Bool),
+    agreesAtL old v hs = true → isinstAny old hs v = some b → tgAny hs v = b
+  | _, [], _, b, _, e => by simp only [isinstAny, Option.some.injEq] at e; simp [tgAny, ← e]
+  | old, h :: hs, v, b, hp, e => by
     simp only [isinstAny] at e
-    have hp1 : (plainValue v || topPlain h) = true := by
-      simp only [topPlainL, Bool.or_eq_true, Bool.and_eq_true] at hp ⊢
-      rcases hp with hp | hp
-      · exact Or.inl hp
-      · exact Or.inr hp.1
-    have hp2 : (plainValue v || topPlainL hs) = true := by
-      simp only [topPlainL, Bool.or_eq_true, Bool.and_eq_true] at hp ⊢
-      rcases hp with hp | hp
-      · exact Or.inl hp
-      · exact Or.inr hp.2
+    simp only [agreesAtL, Bool.and_eq_true] at hp
     simp only [tgAny]
     split at e
     · cases e
     · rename_i e1
       simp only [Option.some.injEq] at e
-      rw [isinst_agrees h v true hp1 e1, ← e]; rfl
+      rw [isinst_agrees old h v true hp.1 e1, ← e]; rfl
     · rename_i e1
-      rw [isinst_agrees h v false hp1 e1, isinstAny_agrees hs v b hp2 e]; rfl
+      rw [isinst_agrees old h v false hp.1 e1, isinstAny_agrees old hs v b hp.2 e]; rfl
 end
 
 /-- where `valid_value` coincides with typeguard -/
 theorem admits_eq_tg (cfg : Cfg) (h : Hint) (v : V)
-    (hp : (cfg.tgOnly || plainValue v || topPlain h) = true) : admits cfg h v = tg h v := by
+    (hp : (cfg.tgOnly || agreesAt false v h) = true) : admits cfg h v = tg h v := by
   unfold admits
   split
   · rfl
   · rename_i hc
     split
     · rename_i b e
-      have : (plainValue v || topPlain h) = true := by
-        simp only [Bool.or_eq_true] at hp ⊢
-        rcases hp with (hp | hp) | hp
+      have : agreesAt false v h = true := by
+        simp only [Bool.or_eq_true] at hp
+        rcases hp with hp | hp
         · exact absurd hp hc
-        · exact Or.inl hp
-        · exact Or.inr hp
-      exact (isinst_agrees h v b this e).symm
+        · exact hp
+      exact (isinst_agrees false h v b this e).symm
     · rfl
 
 /-! ## termination -/
@@ -885,7 +1061,7 @@ theorem strip_size : ∀ h : Hint, size (strip h) ≤ size h
   | .annotated h => by rw [strip]; have := strip_size h; simp [size]; omega
   | .cls _ | .noneVal | .unionNew _ | .unionOld _ | .literal _ | .listOf _
   | .setOf _ | .dictOf _ _ | .tupleFix _ | .tupleVar _ | .typeOf _
-  | .callableOf _ _ => by simp [strip]
+  | .callableOf _ _ | .any | .bare _ | .seqOf _ | .mapOf _ _ => by simp [strip]
 
 theorem Arg.strip_size (x : Arg) : x.strip.size ≤ x.size := by
   cases x <;> simp [Arg.strip, Arg.size, PwVerif.Hint.strip_size]
@@ -894,7 +1070,7 @@ theorem strip_not_annotated : ∀ (h a : Hint), strip h ≠ .annotated a
   | .annotated h, a => by rw [strip]; exact strip_not_annotated h a
   | .cls _, _ | .noneVal, _ | .unionNew _, _ | .unionOld _, _ | .literal _, _ | .listOf _, _
   | .setOf _, _ | .dictOf _ _, _ | .tupleFix _, _ | .tupleVar _, _ | .typeOf _, _
-  | .callableOf _ _, _ => by simp [strip]
+  | .callableOf _ _, _ | .any, _ | .bare _, _ | .seqOf _, _ | .mapOf _ _, _ => by simp [strip]
 
 /-- the comparison always comes back: either old unions are expanded or there are none -/
 def Term (cfg : Cfg) (x : Arg) : Prop := cfg.unionOldExpanded = true ∨ x.every notOldUnion = true
@@ -954,6 +1130,11 @@ theorem argArgs_size (x : Arg) : ∀ m ∈ argArgs x, m.size < x.size := by
     | callableOf ps r =>
       cases ps <;> simp [argArgs, pyArgs] at hm <;>
         rcases hm with rfl | rfl <;> simp [Arg.size, size] <;> (have := size_pos r; omega)
+    | seqOf a =>
+      simp [argArgs, pyArgs] at hm; subst hm; simp [Arg.size, size]
+    | mapOf k v =>
+      simp [argArgs, pyArgs] at hm
+      rcases hm with rfl | rfl <;> simp [Arg.size, size] <;> omega
     | _ => simp [argArgs, pyArgs] at hm
 
 theorem argArgs_term (cfg : Cfg) (x : Arg) (h : Term cfg x) : ∀ m ∈ argArgs x, Term cfg m := by
@@ -996,6 +1177,15 @@ theorem argArgs_term (cfg : Cfg) (x : Arg) (h : Term cfg x) : ∀ m ∈ argArgs 
         simp only [Arg.every, every, Bool.and_eq_true] at h
         cases ps <;> simp [argArgs, pyArgs] at hm <;>
           rcases hm with rfl | rfl <;> first | rfl | exact h.2
+      | seqOf a =>
+        simp [argArgs, pyArgs] at hm; subst hm
+        simp only [Arg.every, every, Bool.and_eq_true] at h ⊢; exact h.2
+      | mapOf k v =>
+        simp [argArgs, pyArgs] at hm
+        simp only [Arg.every, every, Bool.and_eq_true] at h
+        rcases hm with rfl | rfl
+        · exact h.1.2
+        · exact h.2
       | _ => simp [argArgs, pyArgs] at hm
 
 theorem body_total (cfg : Cfg) (rec : Arg → Arg → Option Bool) (h o : Arg)
@@ -1043,11 +1233,17 @@ theorem body_total (cfg : Cfg) (rec : Arg → Arg → Option Bool) (h o : Arg)
               · split
                 · exact allZip_isSome _ _ _ key
                 · simp
-            · apply allL_isSome
-              intro x hx
-              apply anyL_isSome
-              intro y hy
-              exact key x hx y hy
+            · split
+              · split
+                · simp
+                · split
+                  · exact allZip_isSome _ _ _ key
+                  · simp
+              · apply allL_isSome
+                intro x hx
+                apply anyL_isSome
+                intro y hy
+                exact key x hx y hy
 
 theorem ms_total (cfg : Cfg) : ∀ n x y, Term cfg x → Term cfg y → x.size + y.size ≤ n →
     (ms cfg n x y).isSome := by
@@ -1127,46 +1323,65 @@ theorem body_refl (cfg : Cfg) (rec : Arg → Arg → Option Bool) (h : Arg) (th 
         simp only [argOrigin, origin, bne_self_eq_false, Bool.false_eq_true, if_false, argArgs,
           pyArgs, Org.ordered]
         simp only [argArgs, pyArgs] at ktot krefl
-        simp
-        exact allany_refl rec _ ktot krefl
+        cases hfix : cfg.argsFix <;> simp
+        · exact allany_refl rec _ ktot krefl
+        · exact allZip_refl rec _ krefl
       | setOf a =>
         simp only [argOrigin, origin, bne_self_eq_false, Bool.false_eq_true, if_false, argArgs,
           pyArgs, Org.ordered]
         simp only [argArgs, pyArgs] at ktot krefl
-        simp
-        exact allany_refl rec _ ktot krefl
+        cases hfix : cfg.argsFix <;> simp
+        · exact allany_refl rec _ ktot krefl
+        · exact allZip_refl rec _ krefl
       | typeOf a =>
         simp only [argOrigin, origin, bne_self_eq_false, Bool.false_eq_true, if_false, argArgs,
           pyArgs, Org.ordered]
         simp only [argArgs, pyArgs] at ktot krefl
-        simp
-        exact allany_refl rec _ ktot krefl
+        cases hfix : cfg.argsFix <;> simp
+        · exact allany_refl rec _ ktot krefl
+        · exact allZip_refl rec _ krefl
+      | seqOf a =>
+        simp only [argOrigin, origin, bne_self_eq_false, Bool.false_eq_true, if_false, argArgs,
+          pyArgs, Org.ordered]
+        simp only [argArgs, pyArgs] at ktot krefl
+        cases hfix : cfg.argsFix <;> simp
+        · exact allany_refl rec _ ktot krefl
+        · exact allZip_refl rec _ krefl
+      | mapOf k v =>
+        simp only [argOrigin, origin, bne_self_eq_false, Bool.false_eq_true, if_false, argArgs,
+          pyArgs, Org.ordered]
+        simp only [argArgs, pyArgs] at ktot krefl
+        cases hfix : cfg.argsFix <;> simp
+        · exact allany_refl rec _ ktot krefl
+        · exact allZip_refl rec _ krefl
+      | any => simp [argOrigin, origin, leafLe]
+      | bare g =>
+        cases g <;> cases hfix : cfg.argsFix <;>
+          simp [argOrigin, origin, Alias.org, argArgs, pyArgs, Org.ordered, subscripted, allL]
       | dictOf k v =>
         simp only [argOrigin, origin, bne_self_eq_false, Bool.false_eq_true, if_false, argArgs,
           pyArgs, Org.ordered]
         simp only [argArgs, pyArgs] at krefl
-        simp
-        exact allZip_refl rec _ krefl
+        cases hfix : cfg.argsFix <;> simp <;> exact allZip_refl rec _ krefl
       | tupleVar a =>
         simp only [argOrigin, origin, bne_self_eq_false, Bool.false_eq_true, if_false, argArgs,
           pyArgs, Org.ordered]
         simp only [argArgs, pyArgs] at krefl
-        simp
-        exact allZip_refl rec _ krefl
+        cases hfix : cfg.argsFix <;> simp <;> exact allZip_refl rec _ krefl
       | tupleFix as =>
         simp only [argOrigin, origin, bne_self_eq_false, Bool.false_eq_true, if_false, argArgs,
           pyArgs, Org.ordered]
         simp only [argArgs, pyArgs] at krefl
         cases as with
-        | nil => simp
+        | nil => cases hfix : cfg.argsFix <;> simp [subscripted]
         | cons a0 as' =>
-          simp
-          exact allZip_refl rec _ (by simpa using krefl)
+          cases hfix : cfg.argsFix <;> simp <;> exact allZip_refl rec _ (by simpa using krefl)
       | callableOf ps r =>
         simp only [argOrigin, origin, bne_self_eq_false, Bool.false_eq_true, if_false, argArgs,
           Org.ordered]
         simp only [argArgs] at krefl
-        cases ps <;> simp only [pyArgs] at krefl ⊢ <;> simp <;> exact allZip_refl rec _ krefl
+        cases ps <;> cases hfix : cfg.argsFix <;> simp only [pyArgs] at krefl ⊢ <;> simp <;>
+          exact allZip_refl rec _ krefl
 
 theorem ms_refl (cfg : Cfg) : ∀ n x, Term cfg x → x.size + x.size ≤ n → ms cfg n x x = some true := by
   intro n
@@ -1305,8 +1520,8 @@ theorem body_mono (cfg : Cfg) (rec rec' : Arg → Arg → Option Bool)
           split
           · rw [if_pos (by assumption)] at hm; exact hm
           · rw [if_neg (by assumption)] at hm
-            by_cases c4 : g.ordered = true
-            · simp only [c4, if_true] at hm ⊢
+            by_cases c3 : cfg.argsFix = true
+            · simp only [c3, if_true] at hm ⊢
               by_cases c5 : (argArgs o).isEmpty = true
               · simp only [c5, if_true] at hm ⊢; exact hm
               · simp only [c5] at hm ⊢
@@ -1314,8 +1529,18 @@ theorem body_mono (cfg : Cfg) (rec rec' : Arg → Arg → Option Bool)
                 · simp only [c6, if_true] at hm ⊢
                   exact allZip_mono _ _ hr _ _ b hm
                 · simp only [c6] at hm ⊢; exact hm
-            · simp only [c4] at hm ⊢
-              exact allL_mono _ _ (fun x b' hx => anyL_mono _ _ (fun y => hr x y) _ b' hx) _ b hm
+            · simp only [c3] at hm ⊢
+              by_cases c4 : g.ordered = true
+              · simp only [c4, if_true] at hm ⊢
+                by_cases c5 : (argArgs o).isEmpty = true
+                · simp only [c5, if_true] at hm ⊢; exact hm
+                · simp only [c5] at hm ⊢
+                  by_cases c6 : ((argArgs o).length == (argArgs h).length) = true
+                  · simp only [c6, if_true] at hm ⊢
+                    exact allZip_mono _ _ hr _ _ b hm
+                  · simp only [c6] at hm ⊢; exact hm
+              · simp only [c4] at hm ⊢
+                exact allL_mono _ _ (fun x b' hx => anyL_mono _ _ (fun y => hr x y) _ b' hx) _ b hm
 
 theorem ms_mono (cfg : Cfg) : ∀ n x y b, ms cfg n x y = some b → ms cfg (n + 1) x y = some b := by
   intro n
@@ -1337,15 +1562,15 @@ theorem ms_mono_le (cfg : Cfg) (n m : Nat) (hle : n ≤ m) (x y : Arg) (b : Bool
 mutual
 theorem every_imp (p q : Hint → Bool) (hpq : ∀ x, p x = true → q x = true) :
     ∀ h : Hint, every p h = true → every q h = true
-  | .cls _, e | .noneVal, e | .literal _, e => by simp only [every] at e ⊢; exact hpq _ e
+  | .cls _, e | .noneVal, e | .literal _, e | .any, e | .bare _, e => by simp only [every] at e ⊢; exact hpq _ e
   | .unionNew hs, e | .unionOld hs, e | .tupleFix hs, e => by
     simp only [every, Bool.and_eq_true] at e ⊢
     exact ⟨hpq _ e.1, everyL_imp p q hpq hs e.2⟩
   | .annotated a, e | .listOf a, e | .setOf a, e | .tupleVar a, e | .typeOf a, e
-  | .callableOf _ a, e => by
+  | .callableOf _ a, e | .seqOf a, e => by
     simp only [every, Bool.and_eq_true] at e ⊢
     exact ⟨hpq _ e.1, every_imp p q hpq a e.2⟩
-  | .dictOf k v, e => by
+  | .dictOf k v, e | .mapOf k v, e => by
     simp only [every, Bool.and_eq_true] at e ⊢
     exact ⟨⟨hpq _ e.1.1, every_imp p q hpq k e.1.2⟩, every_imp p q hpq v e.2⟩
 theorem everyL_imp (p q : Hint → Bool) (hpq : ∀ x, p x = true → q x = true) :
@@ -1359,15 +1584,16 @@ end
 mutual
 theorem every_and (p q : Hint → Bool) :
     ∀ h : Hint, every p h = true → every q h = true → every (fun x => p x && q x) h = true
-  | .cls _, e, f | .noneVal, e, f | .literal _, e, f => by simp only [every] at e f ⊢; simp [e, f]
+  | .cls _, e, f | .noneVal, e, f | .literal _, e, f | .any, e, f | .bare _, e, f => by
+    simp only [every] at e f ⊢; simp [e, f]
   | .unionNew hs, e, f | .unionOld hs, e, f | .tupleFix hs, e, f => by
     simp only [every, Bool.and_eq_true] at e f ⊢
     exact ⟨⟨e.1, f.1⟩, everyL_and p q hs e.2 f.2⟩
   | .annotated a, e, f | .listOf a, e, f | .setOf a, e, f | .tupleVar a, e, f | .typeOf a, e, f
-  | .callableOf _ a, e, f => by
+  | .callableOf _ a, e, f | .seqOf a, e, f => by
     simp only [every, Bool.and_eq_true] at e f ⊢
     exact ⟨⟨e.1, f.1⟩, every_and p q a e.2 f.2⟩
-  | .dictOf k v, e, f => by
+  | .dictOf k v, e, f | .mapOf k v, e, f => by
     simp only [every, Bool.and_eq_true] at e f ⊢
     exact ⟨⟨⟨e.1.1, f.1.1⟩, every_and p q k e.1.2 f.1.2⟩, every_and p q v e.2 f.2⟩
 theorem everyL_and (p q : Hint → Bool) :
@@ -1385,11 +1611,11 @@ theorem every_and3 (p q r : Hint → Bool) (h : Hint) (hp : every p h = true) (h
 
 mutual
 theorem every_true : ∀ h : Hint, every (fun _ => true) h = true
-  | .cls _ | .noneVal | .literal _ => by simp [every]
+  | .cls _ | .noneVal | .literal _ | .any | .bare _ => by simp [every]
   | .unionNew hs | .unionOld hs | .tupleFix hs => by simp [every, everyL_true hs]
-  | .annotated a | .listOf a | .setOf a | .tupleVar a | .typeOf a | .callableOf _ a => by
+  | .annotated a | .listOf a | .setOf a | .tupleVar a | .typeOf a | .callableOf _ a | .seqOf a => by
     simp [every, every_true a]
-  | .dictOf k v => by simp [every, every_true k, every_true v]
+  | .dictOf k v | .mapOf k v => by simp [every, every_true k, every_true v]
 theorem everyL_true : ∀ hs : List Hint, everyL (fun _ => true) hs = true
   | [] => rfl
   | h :: hs => by simp [everyL, every_true h, everyL_true hs]
